@@ -2,7 +2,7 @@
 //! from normal context and from inside the signal's own handler (signal blocked).
 //!
 //! Output, one line per (signal, mode):  `<sig> <mode> <outcome>`
-//!   mode: native | emu | emu_in_handler | name
+//!   mode: native | emu | emu_in_handler | emu_ignored | emu_foreign | emu_blocked | emu_thread | name
 //!   outcome: sig:N (terminated by N) | stop:N | exit:42 (continued, emulate returned Ok)
 //!            | exit:43 (emulate returned Err) | timeout        (mode name: the name or `-`)
 use crate::forked::{reset_all_dispositions, run_child, Outcome};
@@ -64,6 +64,56 @@ pub fn emulated_in_handler(sig: i32) -> Outcome {
     )
 }
 
+/// normal context, but the disposition is not the default one when the emulation is asked for:
+/// how = 1 the signal is ignored, 2 a foreign handler is installed, 3 the signal is blocked
+pub fn emulated_from(sig: i32, how: i32) -> Outcome {
+    extern "C" fn foreign(_s: libc::c_int) {}
+    run_child(
+        move || unsafe {
+            reset_all_dispositions();
+            match how {
+                1 => {
+                    libc::signal(sig, libc::SIG_IGN);
+                }
+                2 => {
+                    libc::signal(sig, foreign as usize);
+                }
+                _ => {
+                    let mut set: libc::sigset_t = std::mem::zeroed();
+                    libc::sigemptyset(&mut set);
+                    libc::sigaddset(&mut set, sig);
+                    libc::sigprocmask(libc::SIG_BLOCK, &set, std::ptr::null_mut());
+                }
+            }
+            let r = signal_hook::low_level::emulate_default_handler(sig);
+            if r.is_ok() {
+                42
+            } else {
+                43
+            }
+        },
+        Duration::from_secs(5),
+    )
+}
+
+/// the emulation is asked for on a second thread while the main thread sleeps with the signal unblocked
+pub fn emulated_on_thread(sig: i32) -> Outcome {
+    run_child(
+        move || unsafe {
+            reset_all_dispositions();
+            std::thread::spawn(move || {
+                std::thread::sleep(Duration::from_millis(20));
+                let r = signal_hook::low_level::emulate_default_handler(sig);
+                libc::_exit(if r.is_ok() { 42 } else { 43 });
+            });
+            loop {
+                libc::pause();
+            }
+        },
+        Duration::from_secs(5),
+    )
+}
+
 pub fn main(args: &[String]) -> i32 {
     // args: list of signal numbers, or nothing = default sweep
     let sigs: Vec<i32> = if args.is_empty() {
@@ -82,6 +132,10 @@ pub fn main(args: &[String]) -> i32 {
         println!("{} emu {}", s, emulated(s).text());
         if (1..=64).contains(&s) && s != libc::SIGKILL && s != libc::SIGSTOP && s != 32 && s != 33 {
             println!("{} emu_in_handler {}", s, emulated_in_handler(s).text());
+            println!("{} emu_ignored {}", s, emulated_from(s, 1).text());
+            println!("{} emu_foreign {}", s, emulated_from(s, 2).text());
+            println!("{} emu_blocked {}", s, emulated_from(s, 3).text());
+            println!("{} emu_thread {}", s, emulated_on_thread(s).text());
         }
     }
     0
